@@ -49,6 +49,8 @@ field_value = st.one_of(
     st.sampled_from([b'*/*', b'gzip, deflate', b'no-cache', b'a=b; c=d', b'text/html; charset=utf-8', b'1', b'x:y:z',
                      b'Mon, 01 Jan 2024 00:00:00 GMT', b'"abc"', b'']),
     st.lists(st.text(alphabet=_VCHARS, min_size=1, max_size=10), min_size=1, max_size=4).map(lambda ws: ' '.join(ws).encode()),
+    # obs-text (RFC 7230 3.2.6: field-vchar = VCHAR / obs-text): UTF-8 and plain latin-1 octets, which are not valid UTF-8
+    st.sampled_from(['caf\u00e9'.encode('utf-8'), 'caf\u00e9'.encode('latin-1'), b'na\xefve \xff\xfe', '\u65e5\u672c'.encode('utf-8'), b'\x80']),
 )
 
 
